@@ -212,6 +212,30 @@ CATALOGUE.update({
         cond=lambda s: s.cfg.get("np") is None and s.cfg["lp"][0] != "Random" and s.fitted),
 })
 
+# Valid calls: on the unchanged tree none of them raises ("not rejected": no claim, the run ends). They are in the catalogue
+# because the property speaks about EVERY call the library rejects: a change that makes one of them raise after part of
+# its effect has been applied (e.g. a new check placed after MAB.add_arm appended the arm) is a violation.
+def _valid_train(kind):
+    def b(sess, rnd):
+        n = max(3, sess.min_rows() + 1)
+        dec, rew, ctx = _split(_rows(sess, rnd, n), sess.ctxl)
+        return (kind, (dec, rew, ctx) if sess.ctxl else (dec, rew))
+    return b
+
+
+CATALOGUE.update({
+    "valid.fit": _valid_train("fit"),
+    "valid.partial_fit": _valid_train("partial_fit"),
+    "valid.add_arm": _arm_entry("add_arm", lambda s, r: (_unknown_arm(s),)),
+    "valid.add_arm_with_binarizer": _arm_entry("add_arm", lambda s, r: (_unknown_arm(s), gt10), cond=_is_ts),
+    "valid.remove_arm": _arm_entry("remove_arm", lambda s, r: (s.mab.arms[r.randrange(len(s.mab.arms))],),
+                                   cond=lambda s: len(s.mab.arms) > 2),
+    "valid.warm_start": _arm_entry("warm_start", lambda s, r: (_feats(s, r), 0.5),
+                                   cond=lambda s: s.fitted or not s.ctxl),
+})
+# (no "valid.predict": errors surfacing from prediction - e.g. empty-neighbourhood weights whose length no longer matches the
+#  arms - happen after the per-row seeds were drawn; the property's list covers invalid arguments and TRAINING shape errors)
+
 INIT_BAD = {
     "arms_not_list": lambda c: dict(c, arms=tuple(c["arms"])),
     "arms_with_none": lambda c: dict(c, arms=list(c["arms"]) + [None]),
@@ -244,7 +268,7 @@ _BAD_NP = {"Radius": {"radius": 0}, "KNearest": {"k": 0}, "LSHNearest": {"n_tabl
 def _cfg_for(rnd, lpname, npname):
     lp = gen.gen_lp(rnd, lpname)
     kind, arms, spare = gen.gen_arms(rnd, hi=4)
-    np_ = gen.gen_np(rnd, lpname, len(arms), name=npname, allow_probs=False) if npname else None
+    np_ = gen.gen_np(rnd, lpname, len(arms), name=npname, allow_probs=True) if npname else None
     return {"arms": arms, "lp": lp, "np": np_, "seed": rnd.randrange(2 ** 20), "n_jobs": 1, "backend": None}, spare
 
 
